@@ -89,18 +89,59 @@ Proof.
     eapply Forall_impl; [|exact A4]. intros p Hp. rewrite T. exact Hp.
 Qed.
 
+(* the rescue of uninitialised external states, before the loop (no variable has an index yet):
+   SHOULD_BE_STATE -> STATE without index; nothing owns either *)
+Lemma own_inv_rescue : forall b ivs es, (forall p, has_index (geti ivs p) = false) ->
+  own_inv ivs es -> own_inv (map (state_rescue b) ivs) es.
+Proof.
+  intros b ivs es Hnoidx [U O I W B].
+  assert (G : forall p, p < length ivs -> geti (map (state_rescue b) ivs) p = state_rescue b (geti ivs p)) by (intros; apply geti_map; assumption).
+  assert (Hidx : forall v, has_index (state_rescue b v) = has_index v).
+  { intro v. unfold has_index. destruct (state_rescue_keeps b v) as (_ & _ & _ & Ix & _). rewrite Ix. reflexivity. }
+  constructor.
+  - exact U.
+  - intros e p He Hp. specialize (O e p He Hp). destruct (Nat.lt_ge_cases p (length ivs)) as [L|L].
+    + rewrite (G p L). destruct (state_rescue_keeps b (geti ivs p)) as (_ & _ & _ & _ & [E|(E1 & E2)]); [rewrite E; exact O|rewrite E2; reflexivity].
+    + rewrite geti_beyond by (rewrite map_length; exact L). rewrite geti_beyond in O by exact L. exact O.
+  - intros p Hp Hc. rewrite map_length in Hp. rewrite (G p Hp) in *. rewrite Hidx.
+    destruct (state_rescue_keeps b (geti ivs p)) as (_ & _ & _ & _ & [E|(E1 & E2)]).
+    + apply I; [exact Hp|]. rewrite <- E. exact Hc.
+    + rewrite E2 in Hc. discriminate.
+  - intros p Hp. rewrite map_length in Hp. specialize (W p Hp). unfold own_at in *. cbv zeta in *. rewrite (G p Hp), Hidx.
+    destruct (state_rescue_keeps b (geti ivs p)) as (_ & _ & _ & _ & [E|(E1 & E2)]).
+    + rewrite E. exact W.
+    + destruct W as (W1 & _ & _). assert (Ho : owners es p = []) by (apply W1; left; rewrite E1; reflexivity).
+      rewrite E2, (Hnoidx p). split; [intros _; exact Ho|]. split.
+      * intros [K|(_ & K)]; discriminate.
+      * intro K. discriminate.
+  - eapply Forall_impl; [|exact B]. intros e He. eapply eq_inv_evolves; [apply (state_rescue_evolves (@nil comp) b)|exact He].
+Qed.
+
 (** One definer WITH external variables: when the do/while loop of the marked analysis stops, every internal variable
     that was given a direct type (computed constant, algebraic, a state that received its index) is listed in
     mUnknownVariables of exactly one equation, which lists nothing else and has the matching type; an NLA unknown with an
     initial guess only by NLA equations; every other variable (in particular an external variable that the third pass
     turned into INITIALISED) by none. *)
-Theorem one_definer_with_externals : forall s marks ivs0 es0 st es1,
+Theorem one_definer_with_externals : forall s marks b ivs0 es0 st es1,
   marks_in_range s marks -> build s = Some (ivs0, es0) ->
   let U := vs_ivs (analyse_asts s ivs0 es0) in
-  loop s (loop_fuel es0) 1 false (mkCs (remark (eff s ivs0 U marks) 0 U) 0 0) es0 = Some (st, es1) ->
+  loop s (loop_fuel es0) 1 false (mkCs (map (state_rescue b) (remark (eff s ivs0 U marks) 0 U)) 0 0) es0 = Some (st, es1) ->
   own_inv (cs_ivs st) es1.
 Proof.
-  intros s marks ivs0 es0 st es1 _ Hb U Hl.
+  intros s marks b ivs0 es0 st es1 _ Hb U Hl.
   destruct (own_inv_initial _ _ _ Hb) as (H0 & _).
-  eapply loop_own_ext; [exact Hl|]. cbn [cs_ivs]. apply own_inv_remark. exact H0.
+  eapply loop_own_ext; [exact Hl|]. cbn [cs_ivs]. apply own_inv_rescue; [|apply own_inv_remark; exact H0].
+  (* no internal variable has an index before the loop *)
+  intro p.
+  destruct (build_spec _ _ _ Hb) as (B1 & B2 & B3). pose proof (build_fresh _ _ _ Hb) as B4.
+  assert (HA : Forall asts_iv ivs0).
+  { eapply Forall_impl; [|exact B4]. intros v ([T|T] & _ & I); split; try exact I; rewrite T; reflexivity. }
+  assert (Hpos : forall e d, In e es0 -> In d (ie_diffs e) -> ivar_of s ivs0 (snd d) < length ivs0).
+  { intros e d He Hd. rewrite Forall_forall in B2. destruct (B2 e He) as (D & _). rewrite Forall_forall in D.
+    destruct (D d Hd) as (_ & R). apply ivar_of_spec; [exact B1|]. apply B3; [exact R|]. apply in_range_comp in R. apply R. }
+  destruct (analyse_asts_types s ivs0 es0 HA Hpos) as (T1 & _ & _). fold U in T1.
+  destruct (Nat.lt_ge_cases p (length U)) as [L|L].
+  - rewrite remark_geti by exact L. rewrite Forall_forall in T1. destruct (T1 _ (geti_In _ _ L)) as (_ & Ix).
+    unfold has_index. destruct (eff s ivs0 U marks (0 + p)); cbn; rewrite Ix; reflexivity.
+  - rewrite geti_beyond by (rewrite remark_length; exact L). reflexivity.
 Qed.
